@@ -15,7 +15,7 @@ for d in sys.argv[2:]:
         v["suite_tail"] = "patch does not apply: " + r.stderr[-200:]; v["suite_passed"] = False
     else:
         t0 = time.time()
-        r = sh("/venv/bin/python -m pytest -q -p no:cacheprovider --timeout=900 -n 4 tests 2>&1 | tail -3", cwd=wt, timeout=3600)
+        r = sh("/venv/bin/python -m pytest -q -p no:cacheprovider --timeout=2400 -n 4 tests 2>&1 | tail -3", cwd=wt, timeout=7200)
         tail = (r.stdout.strip().splitlines() or [""])[-1][:200]
         v["suite_tail"] = tail; v["suite_s"] = round(time.time() - t0)
         v["suite_passed"] = (" passed" in tail) and (" failed" not in tail) and ("error" not in tail.lower())
